@@ -12,6 +12,41 @@ from .vals import (
 )
 
 
+def _always_true(v):
+    """A display with at least one definite element is true whatever it contains."""
+    if isinstance(v, TNode) and v.kind in ("Tuple", "List", "Set"):
+        elts = v.fields.get("elts")
+        items = elts.items if isinstance(elts, (PList, PTuple)) else []
+        return any(isinstance(i, (TNode, Transf)) or (isinstance(i, V) and not isinstance(i, (Rep, Splice))) for i in items)
+    return False
+
+
+def norm_guard(g):
+    """A guard (polarity, ('truth', uid, node)) reduced to what is really asked (see _truth_guard)."""
+    pol, (tag, uid, node) = g
+    if tag != "truth":
+        return g
+    return _truth_guard(pol, node)
+
+
+def _truth_guard(pol, item):
+    """(polarity, ('truth', uid, node)) with the node reduced to what is really asked:
+    `not x` asks x with the opposite polarity; `x and <always true>` asks x."""
+    for _ in range(8):
+        if isinstance(item, TNode) and item.kind == "UnaryOp" and isinstance(item.fields.get("op"), TNode) and item.fields["op"].kind == "Not":
+            item, pol = item.fields.get("operand"), not pol
+            continue
+        if isinstance(item, TNode) and item.kind == "BoolOp" and isinstance(item.fields.get("op"), TNode) and item.fields["op"].kind == "And":
+            vals = item.fields.get("values")
+            items = vals.items if isinstance(vals, (PList, PTuple)) else []
+            rest = [i for i in items if not _always_true(i)]
+            if len(rest) == 1 and len(items) > 1:
+                item = rest[0]
+                continue
+        break
+    return (pol, ("truth", item.uid if isinstance(item, V) else id(item), item))
+
+
 @dataclass
 class Ev:
     kind: str
